@@ -82,7 +82,10 @@ class ArrLib:
 
 
 class Runner:
+    last = None
+
     def __init__(self):
+        Runner.last = self
         self.A = t3.ApiTracer()
         import vector
         from vector.backends import numpy as VN
@@ -256,14 +259,79 @@ def run():
     return recs, sp_recs
 
 
+class _Tag:
+    """records the order in which NumPy's reduction combines the elements"""
+
+    def __init__(self, idx):
+        self.idx = list(idx)
+
+    def __add__(self, o):
+        return _Tag(self.idx + o.idx)
+
+    __radd__ = lambda self, o: self if o == 0 else _Tag(o.idx + self.idx)  # noqa: E731
+
+
+REDUCE = {
+    (3,): ["np.sum(a, axis=0, keepdims=True)", "a.sum(axis=0, keepdims=True)", "np.sum(a, keepdims=True)", "np.sum(a, axis=-1, keepdims=True)"],
+    (2, 2): ["np.sum(a, axis=0)", "np.sum(a, axis=1)", "np.sum(a, axis=-1, keepdims=True)", "a.sum(axis=0, keepdims=True)", "np.sum(a, keepdims=True)",
+             "a.sum(axis=1)", "np.sum(a, axis=(0, 1), keepdims=True)"],
+    (1,): ["np.sum(a, axis=0, keepdims=True)"],
+}
+
+
+def run_reductions(R):
+    """numpy.sum / .sum() of NumPy vector arrays of 1, 3 and 2x2 symbolic elements: every output element with the list of input
+    elements NumPy combined into it, in order"""
+    out = []
+    V = R.vector
+    srcs = [(d, n, m) for d in (2, 3, 4) for n in t3.SYS[d] for m in (False, True)]
+    for (dim, names, mom) in srcs:
+        keys = [MOM.get(n, n) if mom else n for n in names]
+        for shape, progs in REDUCE.items():
+            nel = int(numpy.prod(shape))
+            for pi, text in enumerate(progs):
+                cols = {}
+                for i, k in enumerate(keys):
+                    col = numpy.empty(nel, dtype=object)
+                    for e in range(nel):
+                        col[e] = S.Sym("var", f"{'abcd'[e]}{i}")
+                    cols[k] = col.reshape(shape)
+                a = V.array(cols)
+                tags = numpy.empty(nel, dtype=object)
+                for e in range(nel):
+                    tags[e] = _Tag([e])
+                tags = tags.reshape(shape)
+                rec = {"src": {"dim": dim, "sys": list(names), "momentum": mom}, "shape": list(shape), "text": text, "prog": pi}
+                try:
+                    r = eval(text, {"np": numpy, "a": a})
+                    order = eval(text.replace("a.sum(", "np.sum(tags, ").replace("np.sum(a", "np.sum(tags"), {"np": numpy, "tags": tags})
+                    if not isinstance(r, R.VN.VectorNumpy) or r.shape != numpy.shape(order):
+                        rec["out"] = {"kind": "other", "what": f"{type(r).__name__} shape {getattr(r, 'shape', None)} vs {numpy.shape(order)}"}
+                    else:
+                        gn = [GEN.get(n, n) for n in r.dtype.names]
+                        systems = ["xy" if gn[0] == "x" else "rhophi"] + gn[2:]
+                        flat = r.reshape(-1)
+                        oflat = numpy.asarray(order, dtype=object).reshape(-1)
+                        rec["out"] = {"kind": "elements", "cls": NP2OBJ.get(type(r).__name__, type(r).__name__), "systems": systems, "out_shape": list(r.shape),
+                                      "elements": [{"whos": oflat[j].idx, "coords": [t3.ser(flat[n][j]) for n in r.dtype.names]} for j in range(flat.shape[0])]}
+                except S.TraceAbort as e:
+                    rec["out"] = {"kind": "abort", "msg": str(e)[:300]}
+                except Exception as e:
+                    rec["out"] = {"kind": "raise", "exc": type(e).__name__, "msg": str(e)[:200]}
+                out.append(rec)
+    return out
+
+
 if __name__ == "__main__":
     recs, sp_recs = run()
     out = sys.argv[1] if len(sys.argv) > 1 else os.path.join(ROOT, "build", "npapi.json")
     json.dump(recs, open(out, "w"))
     json.dump(sp_recs, open(out.replace("npapi", "spapi"), "w"))
+    red = run_reductions(Runner.last)
+    json.dump(red, open(out.replace("npapi", "npreduce"), "w"))
     cnt, cnts = {}, {}
     for r in recs:
         cnt[r["fam"]] = cnt.get(r["fam"], 0) + 1
     for r in sp_recs:
         cnts[r["fam"]] = cnts.get(r["fam"], 0) + 1
-    print(json.dumps({"records": cnt, "sympy_records": cnts}))
+    print(json.dumps({"records": cnt, "sympy_records": cnts, "reductions": len(red), "reduction_kinds": sorted({r["out"]["kind"] for r in red})}))
